@@ -1603,6 +1603,49 @@ def enclosing_binders(root, target):
     return found[0] if found else None
 
 
+def lane_bindings(loop):
+    """what the variables of a lock-step loop stand for:
+        for i in 0..n                                   -> ('i', {})
+        for (i, ((&a, &b), &c)) in x.iter().zip(y).zip(z).enumerate()  -> ('i', {'a': 'x', 'b': 'y', 'c': 'z'})
+    i.e. (index variable or None, {element variable: the sequence whose i-th element it is}); None when the
+    loop is not of that kind"""
+    it = strip(loop["iter"])
+    pat = loop["pat"]
+    if it.get("k") == "Range":
+        n = binding_name(pat)
+        return (n, {}) if n else None
+    idx = None
+    if it.get("k") == "MethodCall" and it["method"] == "enumerate" and not it["args"]:
+        it = strip(it["recv"])
+        p = pat["pat"] if pat.get("k") == "PType" else pat
+        if p.get("k") != "PTuple" or len(p["elems"]) != 2:
+            return None
+        idx = binding_name(p["elems"][0])
+        pat = p["elems"][1]
+        if idx is None:
+            return None
+    srcs = []
+    while it.get("k") == "MethodCall" and it["method"] == "zip" and len(it["args"]) == 1:
+        srcs.append(iter_source(unparse(strip(it["args"][0])).replace(" ", "")))
+        it = strip(it["recv"])
+    srcs.append(iter_source(unparse(it).replace(" ", "")))
+    srcs.reverse()
+    pats = []
+    p = pat
+    for _ in range(len(srcs) - 1):
+        p = p["pat"] if p.get("k") in ("PType", "PRef") and p["pat"].get("k") == "PTuple" else p
+        if p.get("k") != "PTuple" or len(p["elems"]) != 2:
+            return None
+        pats.append(p["elems"][1])
+        p = p["elems"][0]
+    pats.append(p)
+    pats.reverse()
+    names = [binding_name(x) for x in pats]
+    if None in names or len(set(names)) != len(names):
+        return None
+    return (idx, dict(zip(names, srcs)))
+
+
 def iter_source(text):
     """`(0..n).into_iter()` / `xs.iter()` / `&mut xs` -> the thing iterated, without adapters that keep every item"""
     s = text
@@ -1941,7 +1984,7 @@ def inline_helpers(fn, depth=2, max_lines=60, keep=(), private_only=True):
             return node
         if node.get("k") == "Block" and closures_of(cur):
             # the `let f = |..| ..;` of a closure that is expanded at its calls
-            lets = {id(v_[0]) for v_ in closures_of(cur).values()}
+            lets = {id(v_[0]) for k_, v_ in closures_of(cur).items() if k_ not in keep}
             if any(id(s_) in lets for s_ in node.get("stmts", [])):
                 node = dict(node, stmts=[s_ for s_ in node["stmts"] if id(s_) not in lets or len(max_lines_ok(s_)) == 0])
         out = {k: (expand(v, cur, d) if isinstance(v, (dict, list)) and k != "tokens" else v) for k, v in node.items()}
@@ -1951,7 +1994,7 @@ def inline_helpers(fn, depth=2, max_lines=60, keep=(), private_only=True):
         recv = None
         if out.get("k") == "Call":
             segs = path_segs(out["func"])
-            cl = closures_of(cur).get(segs[0]) if segs and len(segs) == 1 else None
+            cl = closures_of(cur).get(segs[0]) if segs and len(segs) == 1 and segs[0] not in keep else None
             if cl is not None and max_lines_ok(cl[0]):
                 c_ = cl[1]
                 params = [binding_name(p_) for p_ in c_.get("inputs", [])]
@@ -2008,6 +2051,28 @@ def inline_helpers(fn, depth=2, max_lines=60, keep=(), private_only=True):
         return [1] if (c_.get("le", 0) - c_.get("ln", 0)) <= max_lines else []
 
     return expand(fn["body"], fn, depth)
+
+
+def hoist_inlined(e):
+    """(statements, expression): every block that `inline_helpers` put in place of a call inside `e` is
+    replaced by its tail expression and its other statements are returned, in order - `x = f(y)` with
+    `f` expanded reads as f's statements followed by `x = <f's result>`"""
+    pre = []
+
+    def rec(n):
+        if isinstance(n, list):
+            return [rec(x) for x in n]
+        if not isinstance(n, dict):
+            return n
+        out = {k: (rec(v) if isinstance(v, (dict, list)) and k != "tokens" else v) for k, v in n.items()}
+        if out.get("k") == "Block" and out.get("_inlined") and out.get("stmts"):
+            st = out["stmts"]
+            if st[-1].get("k") == "ExprStmt" and not st[-1].get("semi", True):
+                pre.extend(st[:-1])
+                return st[-1]["e"]
+        return out
+
+    return pre, rec(e)
 
 
 def unblock(e):
